@@ -59,14 +59,30 @@ class Module(object):
         self.project = project or Project([nc.PROJECT_DIR])
         self.source = Source(text, filename)
         self.scope = extract_scope(self.source, self.project)
+        import ast as _ast
         self.reads = [n for n in get_name_usages(self.source.tree) if hasattr(n, 'flow')]
+        # attribute reads are positions users query as well (obj.attr|)
+        self.reads += sorted((n for n in _ast.walk(self.source.tree) if isinstance(n, _ast.Attribute) and isinstance(n.ctx, _ast.Load)),
+                             key=lambda n: (n.end_lineno, n.end_col_offset))
 
     def query(self, i):
         n = self.reads[i]
+        ctx = EvalCtx(self.project)
+        if not hasattr(n, 'id'):
+            # attribute access: what location() and assist() compute for it
+            try:
+                decl = [canon_decl(x) for x in ctx.declarations(n, [])]
+                v = ctx.evaluate(n)
+                attrs = None
+                if v is not None:
+                    attrs = sorted(a for a in v.attr_list(ctx) if not a.startswith('__'))
+                    attrs = attrs if len(attrs) < 12 else [len(attrs), hash_list(attrs)]
+                return json.dumps(['attr', 0, '', decl, type(v).__name__, attrs])
+            except RecursionError:
+                return json.dumps(['attr', 0, '', 'RecursionError', None, None])
         names = n.flow.names_at(np(n))
         view = canon_name(names.get(n.id))
         visible = sorted(k for k in names if not k.startswith('__'))
-        ctx = EvalCtx(self.project)
         try:
             decl = [canon_decl(x) for x in ctx.declarations(n, [])]
         except RecursionError:
@@ -116,7 +132,7 @@ def check_text(text, part, max_states=400):
             field = diff_field(obs, ref[ev])
             out.append(('history-dependent:%s' % field,
                         'read `%s` at %s answers %s after query history %s but %s when asked first\n--- source ---\n%s' % (
-                            node.id, np(node), obs, [list(np(m0.reads[i])) for i in hist], ref[ev], text),
+                            getattr(node, 'id', None) or '.' + node.attr, np(node), obs, [list(np(m0.reads[i])) for i in hist], ref[ev], text),
                         {'kind': 'text', 'text': text}))
 
     s = e2.Search(build, list(range(n)), lambda m: m.state(), max_states=max_states).run(on_transition)
@@ -134,6 +150,8 @@ def check_text(text, part, max_states=400):
     if L is not None:
         e02 = {(x[2], x[3]) for x in L if x[0] == 'E02'}
         for i, node in enumerate(m0.reads):
+            if not hasattr(node, 'id'):
+                continue
             fresh_missing = json.loads(ref[i])[0] is None
             if (np(node) in e02) != fresh_missing:
                 out.append(('lint-vs-single-query:E02',
@@ -186,7 +204,7 @@ def check_file(path, part):
                 node = m0.reads[i]
                 out.append(('order-dependent:%s:%s' % (name, diff_field(ans[i], base[i])),
                             '%s: read `%s` at %s answers differently in %s order than in forward order:\n %s\n %s' % (
-                                os.path.basename(path), node.id, np(node), name, ans[i][:300], base[i][:300]),
+                                os.path.basename(path), getattr(node, 'id', None) or '.' + node.attr, np(node), name, ans[i][:300], base[i][:300]),
                             {'kind': 'file', 'path': path}))
                 break
     step = 25
@@ -197,7 +215,7 @@ def check_file(path, part):
             node = m0.reads[i]
             out.append(('history-dependent:file:%s' % diff_field(base[i], fresh),
                         '%s: read `%s` at %s answers %s in a forward whole-file walk but %s when asked first' % (
-                            os.path.basename(path), node.id, np(node), base[i][:300], fresh[:300]),
+                            os.path.basename(path), getattr(node, 'id', None) or '.' + node.attr, np(node), base[i][:300], fresh[:300]),
                         {'kind': 'file', 'path': path}))
             break
     part.count('files_bounded')
@@ -321,7 +339,32 @@ class Ring(Circle):
         return Shape()
 '''
 
+SAMEATTR = '''\
+class Foo(object):
+    def foo_method(self): pass
+class Bar(object):
+    def bar_method(self): pass
+class B(object):
+    def __init__(self):
+        self.x = Foo()
+class D(B):
+    def __init__(self):
+        self.x = Bar()
+    def other(self):
+        self.y = self.x
+b = B()
+d = D()
+b.x
+d.x
+d.y
+b
+d
+'''
+
+ONELINE = 'class Foo(object):\n    def foo_method(self): pass\nclass Bar(object):\n    def bar_method(self): pass\na = Foo(); b = a; a = Bar(); c = a\nb\nc\na\nimport os; p = os.getcwd(); p\n'
+
 CYCLIC = [
+    SAMEATTR, ONELINE,
     MCLS + 's = Shape()\nc = Circle()\nr = Ring()\ns\nc\nr\nShape\nRing\nr.hole()\n',
     'class A:\n    x = 1\nclass B(A):\n    y = 2\nclass C(B, A):\n    z = 3\nb = B()\nc = C()\na = A()\nc\nb\na\nA\nC\n',
 
@@ -357,15 +400,42 @@ def space(tier):
     return out + k4
 
 
+def joined(text):
+    """the same program with every pair of adjacent simple statements of one block joined by ';' (several reads per line)"""
+    from . import c13
+    ref = c13.dump(text)
+    cur = text
+    for _ in range(6):
+        nxt = None
+        for label, t in c13.op_semicolon(cur):
+            if label.startswith('join@'):
+                try:
+                    if c13.dump(t) == ref:
+                        nxt = t
+                        break
+                except SyntaxError:
+                    pass
+        if nxt is None:
+            break
+        cur = nxt
+    return cur
+
+
 def unit_progs(arg):
     tier, lo, hi = arg
     part = Part()
-    for prog in space(tier)[lo:hi]:
+    for i, prog in enumerate(space(tier)[lo:hi]):
         text = ps.render(prog, 'plain').text
         part.count('evaluations')
         part.count('programs')
         for sig, what, wit in check_text(text, part):
             part.violation(sig, what, wit)
+        if (lo + i) % 3 == 0:
+            jt = joined(text)
+            if jt != text:
+                part.count('programs_joined_layout')
+                for sig, what, wit in check_text(jt, part):
+                    part.violation(sig + ':joined-layout', what, dict(wit, suffix=':joined-layout'))
     part.outcome(('progs', lo, part.counters['states']))
     return part
 
@@ -412,7 +482,7 @@ def repo_files(tier):
 def replay(w):
     p = Part()
     if w['kind'] == 'text':
-        return [(s, wh) for s, wh, _ in check_text(w['text'], p, max_states=1500)]
+        return [(s + w.get('suffix', ''), wh) for s, wh, _ in check_text(w['text'], p, max_states=1500)]
     if w['kind'] == 'file':
         return [(s, wh) for s, wh, _ in check_file(w['path'], p)]
     return [(s, wh) for s, wh, _ in project_search(p, w.get('which', 'loop'))]
